@@ -144,7 +144,7 @@ CFG_KWARGS = {
     "checks_none": {"checks": ()},
     "checks_without_balance": {"checks": ["substance_keys", "duplicate"]},
 }
-FORMS = ["list", "tuple", "odict", "dict", "names+factory", "set+factory", "list+sort"]
+FORMS = ["list", "tuple", "odict", "dict", "names+factory", "set+factory", "list+sort", "alias-odict"]
 SORTING_FORMS = ("dict", "set+factory", "list+sort")   # a plain dict counts as unordered: the constructor sorts
 
 
@@ -156,6 +156,13 @@ def build_variant(sysin, cfg_name, form):
     subs = make_substances(sysin)
     table = {s.name: s for s in subs}
     kw = dict(CFG_KWARGS[cfg_name])
+    if form == "alias-odict":
+        # the system knows its substances by the KEYS of the mapping (the spec's aliases); the
+        # Substance objects keep their own names as mere labels; reactions are written over the keys
+        alias = dict(zip(names_of(sysin), sysin["aliases"]))
+        arg = OrderedDict((alias[s.name], s) for s in subs)
+        rxns = make_reactions(dict(sysin, subs=[dict(x, name=alias[x["name"]]) for x in sysin["subs"]]))
+        return observe_build(lambda: ReactionSystem(rxns, arg, **kw))
     if form == "list":
         arg = list(subs)
     elif form == "tuple":
@@ -275,6 +282,26 @@ def observe_rates(rsys, names, cvec):
         if e is None:
             return None
         out.append(e)
+    return out
+
+
+def observe_rates_batch(rsys, names, cvecs):
+    """rsys.rates with every concentration given as an array over several states at once
+    (mutable values) -> one exact per-substance rate vector per state."""
+    import numpy as np
+    variables = {n: np.array([int(cv[i]) for cv in cvecs], dtype=object) for i, n in enumerate(names)}
+    r = rsys.rates(variables)
+    out = []
+    for s_idx in range(len(cvecs)):
+        row = []
+        for n in names:
+            v = r.get(n, 0)
+            v = v[s_idx] if hasattr(v, "__len__") else v
+            e = enc_q(v)
+            if e is None:
+                return None
+            row.append(e)
+        out.append(row)
     return out
 
 
